@@ -53,7 +53,33 @@ def dispatch_arms(F, fn):
     return None, None
 
 
+def operands_group_as_in_gleam(F, res, rule="G1"):
+    """The shareable half of G1: the binding-power table, tabulated over every token kind, groups every pair of binary operators as
+    Gleam does. The inferencer types the tree it is given: with `<>` and `|>` exchanged, `"n = " <> x |> show` is typed as
+    `{"n = " <> x} |> show` and the parameter x becomes a String (C09 shares this as Y23)."""
+    pure = teval.Pure(F)
+    kinds = F.variants(SK)
+    inf = {}
+    for k in kinds:
+        v = pure.call(SK + "::infix_bp", [("e", SK, k)])
+        if v[2] == "Some":
+            inf[k] = (v[3][0][3][0], v[3][0][3][1])
+    bad = []
+    for op1 in sorted(ORACLE):
+        for op2 in sorted(ORACLE):
+            if op1 not in inf or op2 not in inf:
+                continue
+            rbp1, lbp2 = inf[op1][1], inf[op2][0]
+            if lbp2 == rbp1 or (lbp2 > rbp1) != (ORACLE[op2] > ORACLE[op1]):
+                bad.append("%s then %s" % (op1, op2))
+    res.ob(rule, "operator-grouping", "for every pair of binary operators `a op1 b op2 c` groups as Gleam prescribes (the table of infix_bp, tabulated over "
+           "all kinds)", set(inf) == set(ORACLE) and not bad, where=LOC, how="%d operators, every pair ok" % len(inf) if not bad and set(inf) == set(ORACLE)
+           else "wrong pairs: %s; operator set differs: %s" % (bad[:6], sorted(set(inf) ^ set(ORACLE))))
+
+
 def run(F, res, tier):
+    from rules import c02 as _c02b
+    _c02b.budget_is_charged_behind_a_token_decision(F, res, rule="G13")   # a well-formed expression below the nesting limit is not refused
     from rules import c14 as _c14u
     _c14u.text_positions_are_counted_in_bytes(F, res, rule="G12", crates=('syntax',))   # engine U: a well-formed non-ASCII string literal is one STRING token
     pure = teval.Pure(F)
